@@ -72,7 +72,7 @@ class ModuleInfo:
 
     def find_function(self, qualname):
         """Return (node, enclosing chain) for 'f', 'f.g' (nested def), 'Class.m', 'Class.m.g'."""
-        parts = qualname.split(".")
+        parts = qualname.split("#")[0].split(".")       # "f#variant": a second contract on the same function (another input class)
         body = self.tree.body
         node = None
         chain = []
